@@ -61,6 +61,10 @@ CLAIMED["C20"] = ("TLA+ specification of the key codec and TokenFactory (Token.t
     "Exhaustive TLC model checking of the parametric pack/unpack/generation/sub-id arithmetic and the factory machine for all triples of widths <= 4/4/4 (and the limb layout), plus TLC trace validation of ~1.5 million (quick) / 6.5 million (thorough) evaluations of the real code: full boundary cross product, all 2^16 generations and all 2^16 sub-ids for several slot ids, a seeded sample, and factories asked for every n in 1..65540 (thorough).", "4/C20",
     "The real 2^64 domain is not enumerated by TLC: it is bound by (1) limb-form agreement checked exhaustively at small limb widths, (2) validation of the real code on boundary values, full 16-bit sweeps and samples, (3) an Apalache/SMT supplement for all 2^64 keys (not the checker of record). Trusted: the driver's limb decomposition; polling's reserved key = usize::MAX. The 32/16-bit layouts of token.rs are not compiled here. A TLAPS proof was attempted and dropped (nonlinear div/mod obligation).")
 
+CLAIMED["C12"] = ("TLA+ specification of dispatch()'s wait: a declarative oracle (effective wait W = Min of timeout, earliest armed deadline, pending one-off event, external wake-up, with None = infinity; timers that must fire; one-off events and self-removals; a second dispatch must block again) and a code-shaped model of dispatch_events / Poll::poll / the timer pop / process_events; TLC checks exhaustively that the two agree for every enumerated configuration and flags 9 seeded mistakes; every replayable configuration is executed on the real EventLoop with real sources and timers, wall-clock durations are recorded and judged by TLC against the oracle",
+    "TLC proves code-shaped wait = oracle for 2640 configurations (thorough: 229,376); the configurations that return are each measured on the real crate (quick: a 441-configuration representative subset; thorough: all, at two time scales) and must satisfy elapsed >= W - 1 ms, elapsed <= W + 150 ms (+20 ms when the machine is quiet and it repeats), limiting timer fired, none early, one-off events delivered once, sources removed, second dispatch blocks again.", "4/C12",
+    "The verdict on the real code is wall-clock measurement (std::time::Instant); TLA+ supplies the configuration space and the expected values, not the clock. Upper-bound clauses count only if reproduced in every one of 4 (Slack) or 6 (Tight) serial measurements; deviations under 150 ms (20 ms on a quiet machine) are not observable; `>` vs `>=` in the timer pop is only distinguishable in the model. Trusted: Linux timerfd and epoll never fire early, the monotonic clock, polling's EINTR loop as modelled.")
+
 checks = []
 for pid, (tech, text, ref, note) in CLAIMED.items():
     checks.append({
